@@ -816,8 +816,9 @@ Qed.
 
 Lemma joined_single v : value_ok v -> joined_value [v] = v.
 Proof.
-  intros [_ [_ [Hr Hn]]]. unfold joined_value. simpl. rewrite Hr. apply smap_id.
-  unfold has_char in Hn. clear Hr. induction v as [|a r IH]; [reflexivity|].
+  intros [_ [Hl [Hr Hn]]]. unfold joined_value, joined_raw. simpl join. rewrite Hr.
+  rewrite smap_id; [exact Hl|].
+  unfold has_char in Hn. clear Hr Hl. induction v as [|a r IH]; [reflexivity|].
   cbn [sany] in Hn. cbn [sall]. apply orb_false_iff in Hn. destruct Hn as [Ha Hr].
   rewrite (Ascii.eqb_sym a nl), Ha, Ascii.eqb_refl. apply IH. exact Hr.
 Qed.
@@ -852,10 +853,10 @@ Qed.
 
 (* ================================================================== the deviations are real (computed witnesses) *)
 
-Definition q_only_stale := {| q_stale := true; q_fbsect := false; q_mkey := false; q_fmt := false; q_metanl := false; q_clear := false |}.
-Definition q_only_fbsect := {| q_stale := false; q_fbsect := true; q_mkey := false; q_fmt := false; q_metanl := false; q_clear := false |}.
-Definition q_only_mkey := {| q_stale := false; q_fbsect := false; q_mkey := true; q_fmt := false; q_metanl := false; q_clear := false |}.
-Definition q_only_fmt := {| q_stale := false; q_fbsect := false; q_mkey := false; q_fmt := true; q_metanl := false; q_clear := false |}.
+Definition q_only_stale := {| q_stale := true; q_fbsect := false; q_mkey := false; q_fmt := false; q_metanl := false; q_clear := false; q_lead := false |}.
+Definition q_only_fbsect := {| q_stale := false; q_fbsect := true; q_mkey := false; q_fmt := false; q_metanl := false; q_clear := false; q_lead := false |}.
+Definition q_only_mkey := {| q_stale := false; q_fbsect := false; q_mkey := true; q_fmt := false; q_metanl := false; q_clear := false; q_lead := false |}.
+Definition q_only_fmt := {| q_stale := false; q_fbsect := false; q_mkey := false; q_fmt := true; q_metanl := false; q_clear := false; q_lead := false |}.
 
 Definition w_stale_ops : list op :=
   [OUpdate (Upd "sa" "k1" "old" None "s" []) true; ODict (Some "sa") [("k1", "new"); ("zz", "2")] "dictionary" false].
@@ -889,7 +890,7 @@ Lemma fmt_witness :
   py_replace all_off [] None "{x:>8}" = Ok "{x:>8}".
 Proof. vm_compute. repeat split; reflexivity. Qed.
 
-Definition q_only_metanl := {| q_stale := false; q_fbsect := false; q_mkey := false; q_fmt := false; q_metanl := true; q_clear := false |}.
+Definition q_only_metanl := {| q_stale := false; q_fbsect := false; q_mkey := false; q_fmt := false; q_metanl := true; q_clear := false; q_lead := false |}.
 
 Definition w_meta_cfg : config :=
   run all_off [OUpdate (Upd "sa" "k1" "v" None "s" [("help", Some "some words of help that do not fit on one line")]) true]
@@ -901,7 +902,7 @@ Lemma metanl_witness :
 Proof. split; [vm_compute; reflexivity|]. vm_compute. discriminate. Qed.
 
 Definition q_only_clear :=
-  {| q_stale := false; q_fbsect := false; q_mkey := false; q_fmt := false; q_metanl := false; q_clear := true |}.
+  {| q_stale := false; q_fbsect := false; q_mkey := false; q_fmt := false; q_metanl := false; q_clear := true; q_lead := false |}.
 Definition w_clear_ops : list op :=
   [OUpdate (Upd "sa" "k1" "v" None "s" []) true; OClear; OUpdate (Upd "sb" "k2" "w" None "s" []) true].
 
@@ -961,3 +962,14 @@ Proof.
     + destruct (int_unsigned r) as [zz|] eqn:U; [|discriminate]. intros H. inversion H. subst.
       first [exact (G _ _ U true)|exact (G _ _ U false)].
 Qed.
+
+Definition q_only_lead :=
+  {| q_stale := false; q_fbsect := false; q_mkey := false; q_fmt := false; q_metanl := false; q_clear := false; q_lead := true |}.
+Definition w_lead_cfg : config :=
+  run all_off [OUpdate (Upd "sa" "k1" "a-word-that-is-longer-than-the-rest-of-the-line" None "s" []) true] (empty_config "cfg").
+
+Lemma lead_witness :
+  answer all_off w_lead_cfg (QReadBack 60 true) = AContent (Ok (view_content (c_view w_lead_cfg))) /\
+  answer q_only_lead w_lead_cfg (QReadBack 60 true) =
+  AContent (Ok [("sa", [("k1", " a-word-that-is-longer-than-the-rest-of-the-line", [])])]).
+Proof. split; vm_compute; reflexivity. Qed.
